@@ -201,6 +201,14 @@ func PrintWord(w ast.Word) (string, error) {
 
 func c20(h int, symbolicName bool) {
 	env := interp.NewExecEnv("sh", "p1")
+	// start from a known store: drop whatever the process environment brought in
+	var inherited []string
+	env.Walk(func(v interp.Var) { inherited = append(inherited, v.Name) })
+	for _, n := range inherited {
+		if n != "IFS" {
+			env.Unset(n)
+		}
+	}
 	m := &storeModel{}
 	m.set("IFS", interp.IFS)
 	names := c20Names
